@@ -55,7 +55,7 @@ def impl(core, c):
         return ("OK", Ad, fd)
     except Exception as e:  # noqa: BLE001
         lay = (c.get("present") or (None, None, None))[1]
-        if lay and lay.split(":")[1] in G.DTYPE_KINDS and type(e).__name__ == "TypingError":
+        if lay and lay.split(":")[1] in G.DTYPE_KINDS and type(e).__name__ in NUMBA_REFUSALS:
             # a dtype combination numba has no typing for is REFUSED loudly at compile time (no numbers are returned): counted,
             # and the case continues on the float64 arrays (a value is never wrong; a refusal is not a value)
             REFUSED[lay] = REFUSED.get(lay, 0) + 1
@@ -63,6 +63,10 @@ def impl(core, c):
         return ("ERR", common.exc_code(e), str(e))
 
 
+# exceptions with which numba refuses, at compile time, an argument type it has no typing / lowering for (float16: NotImplementedError;
+# found by the thorough tier on the unchanged tree: `O:float16` is only in the thorough plan)
+NUMBA_REFUSALS = ("TypingError", "NotImplementedError", "NumbaNotImplementedError", "UnsupportedError", "NumbaTypeError", "LoweringError",
+                  "NumbaValueError")
 REFUSED = {}       # dtype presentation -> number of calls numba refused to type (copied into the evidence by run)
 
 
